@@ -353,7 +353,8 @@ def c03(tier):
             src = c03_fill(c, f)
             jobs.append((H('.', 'HarnessC03Reject'), P('.'), None, {'params': {'src': src, 'wellsrc': 0}, 'label': 'reject ' + src}))
     for w in templates.C03_WELL:
-        for c in templates.C03_CONTEXTS[:6] if q else templates.C03_CONTEXTS:
+        # (the last context compares with an int and is only type-neutral for faults, not for arbitrary well-typed siblings)
+        for c in templates.C03_CONTEXTS[:6] if q else templates.C03_CONTEXTS[:-1]:
             src = c03_fill(c, w)
             jobs.append((H('.', 'HarnessC03Reject'), P('.'), None, {'params': {'src': 'Foo_undefined + 1', 'wellsrc': 1, 'well': src}, 'label': 'accept ' + src}))
     meta = {
